@@ -32,6 +32,9 @@ TARGETS = [
     dict(name="tbc_decrypt", file="src/tbc_header/decrypt.rs", fn="decrypt", kind="slice_loop"),
     dict(name="rc4_prga", file="src/rc4.rs", fn="pseudo_random_generation", kind="method",
          fields=[("state", ("arr", "u8")), ("i", "u8"), ("j", "u8")], helpers=["s_i", "s_j"], ret="u8"),
+    dict(name="wrath_encrypt_server_header", file="src/wrath_header/encrypt.rs", fn="encrypt_server_header", kind="method",
+         fields=[("encrypt", "opaque"), ("server_header", ("arr", "u8"))], helpers=[], free_helpers=["set_large_header"],
+         externs={"self.encrypt": ("ext_apply", "self.encrypt")}, ret=("arr", "u8"), consts={"SERVER_HEADER_MINIMUM_LENGTH": ("wrath_server_header_min_length", "u8")}),
     dict(name="skey_as_equal_slice", file="src/key.rs", fn="as_equal_slice", kind="method",
          fields=[("key", ("arr", "u8"))], helpers=[], ret=("arr", "u8"), readonly=True),
 ]
@@ -103,7 +106,14 @@ def method(t, src):
         env[name] = ("v_" + name, pt); args.append("v_" + name)
     for f, ty in t["fields"]:
         env["self." + f] = ("s_" + f, ty)
-    g = Gen(env, CONSTS, helpers)
+    consts = dict(CONSTS); consts.update(t.get("consts", {}))
+    g = Gen(env, consts, helpers)
+    for h in t.get("free_helpers", []):
+        hs, hr, hb = find_fn(src, h)
+        blk_h = Parser(tokenize(hb)).block()
+        if len(blk_h) != 1 or blk_h[0][0] != "tail": raise Untranslatable("helper %s is not a single expression" % h)
+        g.free_helpers[h] = ([(n_, param_type(ty_)[0]) for n_, ty_ in split_params(hs)], blk_h[0][1])
+    g.externs = dict(t.get("externs", {}))
     blk = Parser(tokenize(body)).block()
     g.usize_vars = usize_variables(blk)
     fields = ["s_" + f for f, _ in t["fields"]]
@@ -116,8 +126,12 @@ def method(t, src):
         if tail is None: return "Some (%s, tt)" % st
         return "Some (%s, %s)" % (st, tail[0])
     text = g.stmts(blk, final)
-    tys = " ".join("(%s : %s)" % ("s_" + f, "list N" if isinstance(ty, tuple) else "N") for f, ty in t["fields"])
-    sty = "(" + " * ".join("list N" if isinstance(ty, tuple) else "N" for _, ty in t["fields"]) + ")"
+    def cty(ty): return "list N" if isinstance(ty, tuple) else ("ST" if ty == "opaque" else "N")
+    tys = " ".join("(%s : %s)" % ("s_" + f, cty(ty)) for f, ty in t["fields"])
+    if any(ty == "opaque" for _, ty in t["fields"]):
+        exts = sorted(set(v[0] for v in t.get("externs", {}).values()))
+        tys = "{ST : Type} " + " ".join("(%s : ST -> list N -> option (ST * list N))" % x for x in exts) + " " + tys
+    sty = "(" + " * ".join(cty(ty) for _, ty in t["fields"]) + ")"
     rty = "list N" if isinstance(t.get("ret"), tuple) else ("N" if t.get("ret") else "unit")
     fuel = "(fuel : nat) " if g.uses_fuel else ""
     head = "Definition tr_%s %s%s %s: option %s :=\n  %s." % (t["name"], fuel, tys, "".join("(%s : N) " % a for a in args), ("(%s)" % rty) if ro else "(%s * %s)" % (sty, rty), text)
